@@ -26,7 +26,8 @@ Dims == <<
   <<"", "/api">>,                                                                               \* 9 backend base path
   <<"round_robin", "least_connections", "weighted_round_robin", "ip_hash", "ip_hash_consistent">>, \* 10 strategy
   <<"ids_on", "ids_off">>,                                                                      \* 11 request/trace id middleware
-  <<"noplugins", "logging">> >>                                                                 \* 12 non-transforming plugin
+  <<"noplugins", "logging">>,                                                                   \* 12 non-transforming plugin
+  <<"bare", "guards">> >>          \* 13 circuit breaker, rate limiter and passive checks enabled with limits the run never reaches
 
 NDims == Len(Dims)
 Idx(d, v) == CHOOSE i \in DOMAIN Dims[d] : Dims[d][i] = v
